@@ -182,8 +182,16 @@ impl Property for C19 {
                     };
                     queries.push(q);
                 }
-                let ns = xgen::expr_ns();
+                // half of the callers do not bind the xml prefix (neither tool does): a query must not bind it for them
+                let mut ns = xgen::expr_ns();
                 let mut labels = vec![];
+                if text.len() % 2 == 0 {
+                    ns.retain(|(p, _)| p != "xml");
+                    labels.push("caller-does-not-bind-xml".to_string());
+                    // probes that need the binding, to be asked after queries that use xml:* / lang()
+                    queries.push(["//*[@xml:lang]", "count(//@xml:*)", "//*[attribute::xml:*]", "//xml:a", "count(//@xml:lang)"][text.len() / 2 % 5].to_string());
+                    queries.push(["count(//@xml:lang)", "//*[@xml:lang]", "//xml:a", "count(//@xml:*)", "//*[self::xml:* or nosuch()]"][text.len() / 3 % 5].to_string());
+                }
                 if fail_then_probe {
                     labels.push("failing-query-then-position-probe".to_string());
                 }
